@@ -102,7 +102,7 @@ EXTREMES = [
     (1582, 10, 4, 12, 0, 0, 0), (1582, 10, 15, 12, 0, 0, 0), (1899, 12, 31, 23, 59, 59, 0), (1900, 1, 1, 0, 0, 0, 0),
     (1900, 2, 28, 23, 59, 59, 999999), (1900, 3, 1, 0, 0, 0, 0), (1969, 12, 31, 23, 59, 59, 999999),
     (1970, 1, 1, 0, 0, 0, 0), (2000, 1, 1, 0, 0, 0, 0), (2000, 2, 29, 12, 0, 0, 0), (2000, 12, 31, 23, 59, 59, 999999),
-    (2001, 1, 1, 0, 0, 0, 0), (2001, 1, 1, 0, 0, 0, 1), (2000, 12, 31, 23, 59, 59, 999999), (2024, 2, 29, 0, 0, 0, 0),
+    (2001, 1, 1, 0, 0, 0, 0), (2001, 1, 1, 0, 0, 0, 1), (2016, 2, 29, 23, 59, 59, 999999), (2024, 2, 29, 0, 0, 0, 0),
     (2024, 2, 29, 23, 59, 59, 999999), (2024, 12, 31, 12, 0, 0, 0), (2023, 12, 31, 12, 0, 0, 0), (2023, 1, 1, 0, 0, 0, 0),
     (2024, 1, 1, 0, 0, 0, 0), (2100, 12, 31, 23, 59, 59, 999999), (2100, 2, 28, 12, 0, 0, 0), (2101, 1, 1, 0, 0, 0, 0),
     (2018, 1, 1, 12, 0, 0, 0), (2018, 12, 31, 12, 0, 0, 0), (2012, 12, 31, 12, 0, 0, 0), (2012, 1, 1, 0, 0, 1, 0),
@@ -571,12 +571,11 @@ def work(task):
     for k, v in stats.items():
         if isinstance(v, int):
             part.count(k, v)
-    d = part.dump()
-    d["sets"] = {k: sorted(v) if k in ("dur_shapes", "auto_shapes") else list(v) for k, v in stats.items() if isinstance(v, set)}
     part.outcome("agrees with the reference", stats["agree"])
     for rec in part.failures.values():
         part.outcome("disagrees: " + rec["ident"]["mechanism"] + "/" + str(rec["ident"].get("pattern")), rec["count"])
-    d["outcomes"] = dict(part.outcomes)
+    d = part.dump()
+    d["sets"] = {k: sorted(v) if k in ("dur_shapes", "auto_shapes") else list(v) for k, v in stats.items() if isinstance(v, set)}
     return d
 
 
@@ -613,8 +612,11 @@ def main():
     reference_self_test(run)
     tasks = []
     sizes = {}
+    only = [g for g in os.environ.get("VERIF_C14_GROUPS", "").split(",") if g]  # development aid, never a verdict
+    if only:
+        run.cap(f"restricted to groups {only} by VERIF_C14_GROUPS: the coverage floors fail, the run cannot pass as held")
     for g in GROUPS:
-        _CASES[g] = gen_group(g, args.tier, args.seed)
+        _CASES[g] = gen_group(g, args.tier, args.seed) if not only or g in only else []
         n = len(_CASES[g])
         sizes[g] = n
         if n:
@@ -623,7 +625,8 @@ def main():
             for lo, hi in shards(n, k):
                 tasks.append((g, lo, hi, args.tier, args.seed))
     tasks.sort(key=lambda t: -(t[2] - t[1]))
-    tasks.insert(0, ("fixture", 0, 0, args.tier, args.seed))
+    if not only or "fixture" in only:
+        tasks.insert(0, ("fixture", 0, 0, args.tier, args.seed))
     sets = {"keys": set(), "dur_keys": set(), "dur_shapes": set(), "auto_shapes": set()}
     for res in pmap(work, tasks, args.jobs):
         for k, v in res.pop("sets", {}).items():
@@ -634,6 +637,7 @@ def main():
     need = {"H": 24, "HH": 24, "h": 12, "hh": 12, "k": 24, "kk": 24, "K": 12, "KK": 12, "a": 2, "m": 60, "mm": 60, "s": 60,
             "ss": 60, "d": 31, "dd": 31, "D": 366, "DD": 366, "DDD": 366, "M": 12, "MM": 12, "MMM": 12, "MMMM": 12,
             "EEE": 7, "EEEE": 7, "W": 6, "ww": 54, "F": 5, "S": 10, "SS": 100, "SSS": 1000, "yy": 100, "y": 9999, "yyyy": 9999}
+    need.update({"SSSS": 10_000, "SSSSS": 100_000} if args.tier == "thorough" else {"SSSS": 1000, "SSSSS": 1000})
     seen = {}
     for g in ("single-date", "single-clock", "single-year", "single-subsecond"):
         for case in _CASES[g]:
@@ -653,15 +657,15 @@ def main():
     run.floor(">= 400 formatted duration cells of duration_112.numbers judged", cnt["fixture_cells"] >= 400)
     run.floor("durations: all 3 styles x 21 unit selections displayed and read back", len({(s, u[0], u[-1]) for s, u in sets["dur_shapes"]}) >= 63)
     run.floor("automatic units: >= 15 distinct unit selections observed", len(sets["auto_shapes"]) >= 15)
-    run.floor(">= 2 distinct outcomes (agreeing renderings exist)", cnt["agree"] > 100_000)
+    run.floor("> 100 000 renderings agree with the reference (the oracle is not vacuously failing)", cnt["agree"] > 100_000)
     run.extra["group_sizes"] = sizes
     run.extra["auto_unit_selections_observed"] = len(sets["auto_shapes"])
     run.assume("y = unpadded full year (documentation row knowingly not followed, see DESIGN C14); yyyy and y compared "
                "numerically below year 1000; ww compared numerically; W counts Monday-based weeks; S..SSSSS truncate")
     run.assume("sub-second directives judged only for instants in 1900..2100; durations 0..10 years, non-negative, whole ms")
     run.assume("durations: the displayed numbers must be the carried components of the truncated value over the units shown "
-               "(largest unit unbounded); plural forms and the ':' / '.' separators are not judged; with automatic units "
-               "any unit selection is accepted")
+               "(largest unit unbounded; a '.' in the compact style is a decimal point, so exactly three digits must follow it); "
+               "plural forms and zero padding after ':' are not judged; with automatic units any unit selection is accepted")
     run.assume("written-cell 'live' phase not run for durations: no public API can attach a duration format to a written cell")
     if args.tier != "thorough":
         run.assume("quick tier: sub-seconds on all 1000 ms multiples (thorough: all 100 000 values of the 5-digit field); "
@@ -671,7 +675,7 @@ def main():
         "rule": "distinct (format string, stored instant) pairs judged whose format contains at least one value-dependent "
                 "directive (formats made only of G and literals are not counted) + distinct (style, units, automatic, "
                 "milliseconds) duration points; measured by hashing in the workers",
-        "exhaustive": True,
+        "exhaustive": not only,
     }
     return run.finish(cov)
 
